@@ -117,6 +117,12 @@ ModelReverse(m) ==      \* StandardPath::try_reverse
 
 \* p is the encoding of an accepted model
 WF(p) == ModelValid(ModelOf(p)) /\ Encode(ModelOf(p)) = p
+\* ... which is the case exactly for a non-zero prefix of segment lengths with both pointers inside
+\* (equivalence checked as invariant WFEquiv of MC_PathOps)
+WFFast(p) == /\ PrefixShape(p.sl) /\ p.ch < Total(p.sl) /\ p.ci < NInf(p.sl)
+             /\ 4 + 8 * NInf(p.sl) + 12 * Total(p.sl) <= MAXPATHBYTES
+             /\ (FIXHOPS => Total(p.sl) <= CHMOD)
+             /\ p.sl[1] <= MAXSEGHOPS /\ p.sl[2] <= MAXSEGHOPS /\ p.sl[3] <= MAXSEGHOPS
 
 (* ---- expiry ---------------------------------------------------------------- *)
 Dur(e) == ((e + 1) * 675) \div 2            \* exp_time_to_duration(e).as_secs()
